@@ -519,6 +519,22 @@ def _run_pair(case, out):
         _check_scaling(out, e, gb, sb, k, sb_sig, gb.unit, dict(det, scaled="SI of b"))
         if out.disc:
             return
+    # a caller that edits the list it got from sisig() edits its own list: the signatures of the types stay
+    for c in (A, B):
+        try:
+            q1 = c(1.0)
+            for holder in (q1, q1.asSI(), c):
+                got = holder.sisig()
+                if isinstance(got, list) and got:
+                    got[0] += 7
+                    got.reverse()
+            if _get_sig(c) != e.sig[c] or _get_sig(c(2.0)) != e.sig[c] or _get_sig(c(2.0).asSI()) != e.sig[c]:
+                out.fail("class-sisig", {"cls": c.__name__, "after": "the caller changed a list returned by sisig()",
+                                         "got": _get_sig(c(2.0)), "want": e.sig[c]})
+                return
+        except Exception as ex:
+            out.fail("class-sisig", {"cls": c.__name__, "error": repr(ex)})
+            return
     out.info = {"want_sig": want_sig}
 
 
@@ -685,6 +701,28 @@ def _run_sisi(case, out):
             return
         if eq is not False or ne is not True:
             out.fail("mixed-eq-true", dict(det, eq=repr(eq)))
+    # a chain of products: exponents beyond one digit (m12, s-14 ..) are ordinary generic values, too - scaling,
+    # negation, absolute value and same-signature addition keep working on them
+    if not out.disc and math.isfinite(want_val) and abs(want_val) < 1e100:
+        try:
+            r2 = r * r
+            sig2 = [2 * v for v in want_sig]
+            v2_ = want_val * want_val
+            if _get_sig(r2) != sig2 or not _same(r2, v2_):
+                out.fail("si-op-signature" if _get_sig(r2) != sig2 else "si-op-value", dict(det, chain="r*r"))
+            else:
+                for nm_, fn_, wv_ in (("scale", lambda: r2 * 2.0, v2_ * 2.0), ("rscale", lambda: 2.0 * r2, 2.0 * v2_),
+                                      ("div", lambda: r2 / 2.0, v2_ / 2.0), ("neg", lambda: -r2, -v2_),
+                                      ("abs", lambda: abs(r2), abs(v2_)), ("add", lambda: r2 + r2, v2_ + v2_)):
+                    z = fn_()
+                    if _get_sig(z) != sig2 or not _same(z, wv_):
+                        out.fail("scale-value" if _get_sig(z) == sig2 else "scale-signature",
+                                 dict(det, chain="(r*r) " + nm_, got_sig=_get_sig(z), want_sig=sig2))
+                        break
+                if any(abs(v) >= 10 for v in sig2):
+                    out.label("exponent>=10")
+        except Exception as ex:
+            out.fail("si-op-raises", dict(det, chain="r*r and its scaling", error=repr(ex)))
     out.nontrivial = _nz(want_sig) >= 2
 
 
